@@ -385,7 +385,7 @@ def _multi_sub_scenario(store, n, k1, k2, g1, g2, slow1):
 
 
 @obligation(quick=150, thorough=400, partitions_quick=[f"n == {n} and sq == {s}" for n in (2, 3) for s in (False, True)],
-            partitions_thorough=[f"n == {n} and sq == {s} and k1 == {k}" for n in (2, 3) for s in (False, True) for k in (-1, 0, 1)],
+            partitions_thorough=[f"n == {n} and sq == {s} and k1 == {k}" for n in (2, 3) for s in (False, True) for k in (-1, 0, 1) if k <= n - 2],
             what="TWO live subscribers of one run (cursors symbolic, one of them slow) while events are appended one at a time: each gets exactly "
                  "the events above its own cursor, in order, once, and its stream ends right after the terminal event — memory and SQLite alike",
             bounds={"events": "2..3 (last one terminal)", "cursors": "-1..n-2 each", "writer gaps": "0..GMAX", "slow subscriber delay": "0..GMAX"})
